@@ -270,7 +270,10 @@ Definition open (ro : bool) (only : option (list name)) (when : time)
         | Some vs => Ret (apply_order_multi order vs, [PMerged; PCur], false)
         | None => Do (RList PCur) (fun r =>
                     match r with
-                    | RNames l => Ret (apply_order order l, [PCur], true)
+                    (* a listed version that a concurrent commit retires before it is fetched is
+                       under merged/ (fix 139e009; before it only current/ was searched and the
+                       version was skipped as if it had been vacuumed) *)
+                    | RNames l => Ret (apply_order order l, [PCur; PMerged], true)
                     | _ => Fail E_LIST
                     end)
         end)
